@@ -44,7 +44,8 @@ where
         // Load signer
         let signer: SignatureKeyPair = self.load_mls_signer(group)?;
 
-        // Ensure rumor ID
+        // Ensure rumor ID (recomputed: a pre-set id that is not the hash of the rumor is never used)
+        rumor.id = None;
         rumor.ensure_id();
 
         // Serialize as JSON
